@@ -193,6 +193,23 @@ def make_cases(tier, seed):
     for lit, val in (("0.5", 0.5), ("1_000.25", 1000.25), ("2.5e3", 2500.0), ("2.5E-3", 0.0025), ("16777217.0", 16777217.0), ("0.1", 0.1), ("123456789.125", 123456789.125)):
         add("f64", f"$N : f64 = {lit}; vr_bytes($ID, ^$N, 8);", True, struct.pack("<d", val).hex(), f"{lit} as f64", ("f64_form", lit))
         add("f32", f"$N : f32 = {lit}; vr_bytes($ID, ^$N, 4);", True, struct.pack("<f", val).hex(), f"{lit} as f32", ("f32_form", lit))
+    # G. a literal next to an untyped NEGATIVE operand, the whole expression used at a signed type: the literal is still used at that
+    #    type, so MAX+1 must be rejected and MAX keeps its value (python's floor division differs from truncation for negatives: use exact values)
+    for ty, w, signed in INT_TYPES:
+        if not signed or w > 64:
+            continue
+        mx = (1 << (w - 1)) - 1
+        for v in (mx, mx + 1):
+            ok = v <= mx
+            size = w // 8
+            for opname, op, res in (("div", "/", -(v // 2)), ("add", "+", v - 2), ("mul", "*", -2 * v)):
+                if opname == "mul" and ok:
+                    continue        # MAX * -2 overflows: wrapping is C08's subject
+                exp = le(res & ((1 << w) - 1), size) if ok else None
+                add("lit_with_weak_negative", f"$Nd := -2; $N : {ty} = {v} {op} $Nd; vr_bytes($ID, ^$N, {size});", ok, exp,
+                    f"d := -2; x : {ty} = {v} {op} d", ("lit_with_weak_negative", ty, opname, "fits" if ok else "too_big"))
+                add("lit_with_weak_negative", f"$N : {ty} = {v} {op} -2; vr_bytes($ID, ^$N, {size});", ok, exp,
+                    f"x : {ty} = {v} {op} -2", ("lit_with_negated_literal", ty, opname, "fits" if ok else "too_big"))
     # F. integer literals written where a float is expected: the value they spell, rounded to the nearest float
     #    (whether such a use is accepted is not constrained by the statement - capy rejects big ones in globals -, an accepted one must keep its value)
     from .c08 import int_to_float
